@@ -1,6 +1,6 @@
 (* Non-vacuity for C15: concrete numerals meet the hypotheses of the theorems and the model gives the expected forms. *)
 From Coq Require Import List NArith ZArith Bool Lia.
-From SudachiVerif Require Import Model.Numeric Model.NumericRef Proofs.NumericProofs Proofs.NumericRefProofs.
+From SudachiVerif Require Import Model.Numeric Model.NumericRef Proofs.NumericProofs Proofs.NumericRefProofs Proofs.NumericGrouped.
 Import ListNotations.
 Open Scope N_scope.
 
@@ -65,3 +65,9 @@ Proof. vm_compute. reflexivity. Qed.
 Example ex_reachable_state :
   exists p, p_feed gen_cfg (p_new gen_cfg) [49;50;46;53] = (true, p) /\ pt (tmp p) = Some 2%nat /\ sg (tmp p) = [1;2;5].
 Proof. eexists. split; [vm_compute; reflexivity | split; reflexivity]. Qed.
+
+(* grouped: "12,345,678" is well-formed; "12,34" and "0,123" and ",123" are not *)
+Example ex_groups :
+  groups_ok [1;2] [[3;4;5]; [6;7;8]] = true /\ groups_ok [1;2] [[3;4]] = false /\ groups_ok [0] [[1;2;3]] = false /\
+  groups_ok [] [[1;2;3]] = false /\ groups_ok [1] [[]; [1;2;3]] = false.
+Proof. vm_compute. repeat split. Qed.
